@@ -11,10 +11,16 @@ macro_rules! l0_inst {
         crate::proof!{ #[kani::unwind($unw)] fn [<c04_ $tier _ $f _ $pn>]() { l0::$f::<$p, {l0::C04}>() } }
     }};
 }
+macro_rules! l0_inst_noc03 {
+    ($tier:ident, $f:ident, $p:ty, $pn:ident, $unw:expr) => { paste! {
+        crate::proof!{ #[kani::unwind($unw)] fn [<c01_ $tier _ $f _ $pn>]() { l0::$f::<$p, {l0::C01}>() } }
+        crate::proof!{ #[kani::unwind($unw)] fn [<c04_ $tier _ $f _ $pn>]() { l0::$f::<$p, {l0::C04}>() } }
+    }};
+}
 macro_rules! l0_all_protos {
     ($tier:ident, $f:ident, $unw_bin:expr, $unw_cmp:expr) => {
         l0_inst!($tier, $f, PBin, bin, $unw_bin);
-        l0_inst!($tier, $f, PLe, le, $unw_bin);
+        l0_inst_noc03!($tier, $f, PLe, le, $unw_bin);
         l0_inst!($tier, $f, PUnchecked, unchecked, $unw_bin);
         l0_inst!($tier, $f, PCompact, compact, $unw_cmp);
     };
@@ -35,10 +41,16 @@ macro_rules! blob_inst {
         crate::proof!{ #[kani::unwind($unw)] fn [<c04_ $tier _l0_ $apin $len _ $pn>]() { l0::l0_blob::<$p, {l0::C04}, {l0::$api}, $len>() } }
     }};
 }
+macro_rules! blob_inst_noc03 {
+    ($tier:ident, $api:ident, $apin:ident, $len:expr, $p:ty, $pn:ident, $unw:expr) => { paste! {
+        crate::proof!{ #[kani::unwind($unw)] fn [<c01_ $tier _l0_ $apin $len _ $pn>]() { l0::l0_blob::<$p, {l0::C01}, {l0::$api}, $len>() } }
+        crate::proof!{ #[kani::unwind($unw)] fn [<c04_ $tier _l0_ $apin $len _ $pn>]() { l0::l0_blob::<$p, {l0::C04}, {l0::$api}, $len>() } }
+    }};
+}
 macro_rules! blob_all_protos {
     ($tier:ident, $api:ident, $apin:ident, $len:expr, $unw:expr) => {
         blob_inst!($tier, $api, $apin, $len, PBin, bin, $unw);
-        blob_inst!($tier, $api, $apin, $len, PLe, le, $unw);
+        blob_inst_noc03!($tier, $api, $apin, $len, PLe, le, $unw);
         blob_inst!($tier, $api, $apin, $len, PUnchecked, unchecked, $unw);
         blob_inst!($tier, $api, $apin, $len, PCompact, compact, $unw);
     };
